@@ -102,7 +102,21 @@ impl HasSideEffects for ast::Suffix {
         )]
         match self {
             ast::Suffix::Call(_) => true,
-            ast::Suffix::Index(_) => false,
+            ast::Suffix::Index(index) => index.has_side_effects(),
+            _ => true,
+        }
+    }
+}
+
+impl HasSideEffects for ast::Index {
+    fn has_side_effects(&self) -> bool {
+        #[cfg_attr(
+            feature = "force_exhaustive_checks",
+            deny(non_exhaustive_omitted_patterns)
+        )]
+        match self {
+            ast::Index::Brackets { expression, .. } => expression.has_side_effects(),
+            ast::Index::Dot { .. } => false,
             _ => true,
         }
     }
